@@ -33,6 +33,8 @@ class Event:
     origin: Poly       # index of the array at which element 0 of the ramp vector sits (UP) / element len-1 ... (see paint)
     veclen: Optional[Poly] = None
     node: Optional[ast.AST] = None
+    lo_neg: Optional[Poly] = None   # bound written `-e`: e is kept, because numpy reads -0 as 0 (x[:-0] is empty, x[-0:] is everything)
+    hi_neg: Optional[Poly] = None
 
 
 @dataclass
@@ -41,12 +43,42 @@ class ArrVal:
     events: List[Event] = field(default_factory=list)
 
     def shifted(self, by: Poly, new_len: Poly) -> "ArrVal":
+        if any(e.lo_neg is not None or e.hi_neg is not None for e in self.events):
+            raise AnalysisError("a view of an array written through a `-e` slice bound is not modelled")
         return ArrVal(new_len, [Event(e.lo - by, e.hi - by, e.kind, e.origin - by, e.veclen, e.node) for e in self.events])
 
 
 def num(p: Poly, env: Dict[str, int]) -> Optional[Fraction]:
     q = p.subs({k: Poly.const(v) for k, v in env.items()})
     return q.const_value()
+
+
+def paint_nodes(a: ArrVal, env: Dict[str, int]) -> Optional[List[Optional[ast.AST]]]:
+    """For every index the source construct (event node) whose value finally sits there (same walk as paint)."""
+    n = num(a.length, env)
+    if n is None or n != int(n) or n < 0:
+        return None
+    n = int(n)
+    out: List[Optional[ast.AST]] = [None] * n
+    for e in a.events:
+        lo, hi = num(e.lo, env), num(e.hi, env)
+        if lo is None or hi is None:
+            return None
+        lo, hi = int(lo), int(hi)
+        for which, negp in (("lo", e.lo_neg), ("hi", e.hi_neg)):
+            if negp is not None:
+                ev_ = num(negp, env)
+                if ev_ is None:
+                    return None
+                ev_ = int(ev_)
+                idx = (n - ev_) if ev_ > 0 else -ev_
+                if which == "lo":
+                    lo = idx
+                else:
+                    hi = idx
+        for p in range(max(lo, 0), min(hi, n)):
+            out[p] = e.node
+    return out
 
 
 def paint(a: ArrVal, env: Dict[str, int]) -> Optional[List[Tuple[str, int]]]:
@@ -61,6 +93,19 @@ def paint(a: ArrVal, env: Dict[str, int]) -> Optional[List[Tuple[str, int]]]:
         if lo is None or hi is None or org is None:
             return None
         lo, hi, org = int(lo), int(hi), int(org)
+        for which, negp in (("lo", e.lo_neg), ("hi", e.hi_neg)):
+            if negp is not None:
+                ev_ = num(negp, env)
+                if ev_ is None:
+                    return None
+                ev_ = int(ev_)
+                idx = (n - ev_) if ev_ > 0 else -ev_     # python / numpy: x[-e] counts from the end only for e > 0; -0 is 0
+                if which == "lo":
+                    if org == lo:
+                        org = idx
+                    lo = idx
+                else:
+                    hi = idx
         vl = None
         if e.veclen is not None:
             v = num(e.veclen, env)
@@ -95,6 +140,7 @@ class Extractor:
         self.arr: Dict[str, ArrVal] = {}
         self.ramps: Dict[str, Poly] = dict(ramps or {})   # name of a ramp vector -> its length
         self.yielded: List[Tuple[ast.AST, List[ast.AST]]] = []
+        self.aliases: List[Tuple[str, ...]] = []
         self.obligations: List[Tuple[ast.AST, str, Poly, Poly]] = []   # (node, text, store extent, value length) must be equal
 
     # ---- values
@@ -149,13 +195,27 @@ class Extractor:
         return ArrVal(a.length, out)
 
     def _bounds(self, sl: ast.Slice, length: Poly) -> Tuple[Poly, Poly]:
+        lo, hi, _, _ = self._bounds_neg(sl, length)
+        return lo, hi
+
+    def _bounds_neg(self, sl: ast.Slice, length: Poly):
+        """(lo, hi, lo_neg, hi_neg): a bound written `-e` (e not a literal) is also returned as e, see Event.lo_neg."""
         def one(b, default):
             if b is None:
-                return default
+                return default, None
             if isinstance(b, ast.UnaryOp) and isinstance(b.op, ast.USub):
-                return length - self.ev.ev(b.operand)
-            return self.ev.ev(b)
-        return one(sl.lower, Poly.const(0)), one(sl.upper, length)
+                e = self.ev.ev(b.operand)
+                return length - e, (None if e.const_value() is not None and e.const_value() > 0 else e)
+            return self.ev.ev(b), None
+        (lo, ln), (hi, hn) = one(sl.lower, Poly.const(0)), one(sl.upper, length)
+        return lo, hi, ln, hn
+
+    def scalar_kind(self, e: ast.AST) -> Optional[str]:
+        """Tag of a scalar stored into a slice (None when e is not a scalar this model knows)."""
+        ok, c = const_value(e)
+        if ok and isinstance(c, (int, float)) and not isinstance(c, bool):
+            return "ONE" if c == 1 else ("ZERO" if c == 0 else f"CONST:{c}")
+        return None
 
     # ---- statements
     def run(self, stmts: Sequence[ast.stmt]):
@@ -168,6 +228,11 @@ class Extractor:
             if d is None:
                 raise AnalysisError(f"conditional value `{src(s.value)[:60]}` cannot be decided for the window class")
             s = ast.copy_location(ast.Assign(targets=s.targets, value=s.value.body if d else s.value.orelse), s)
+        if isinstance(s, ast.Assign) and len(s.targets) > 1 and all(isinstance(t, ast.Name) for t in s.targets):
+            for t in s.targets:   # a = b = value : both names refer to ONE object
+                self.step(ast.copy_location(ast.Assign(targets=[t], value=s.value), s))
+            self.aliases.append(tuple(t.id for t in s.targets))
+            return
         if isinstance(s, ast.Assign) and len(s.targets) == 1:
             t = s.targets[0]
             if isinstance(t, ast.Name):
@@ -185,15 +250,16 @@ class Extractor:
                 a = self.arr[t.value.id]
                 if not isinstance(t.slice, ast.Slice) or t.slice.step is not None:
                     raise AnalysisError(f"store `{src(s)[:80]}` is not a plain slice store")
-                lo, hi = self._bounds(t.slice, a.length)
-                ok, c = const_value(s.value)
-                if ok and isinstance(c, (int, float)):
-                    kind = "ONE" if c == 1 else ("ZERO" if c == 0 else f"CONST:{c}")
-                    a.events.append(Event(lo, hi, kind, lo, None, s))
+                lo, hi, ln, hn = self._bounds_neg(t.slice, a.length)
+                k = self.scalar_kind(s.value)
+                if k is not None:
+                    a.events.append(Event(lo, hi, k, lo, None, s, ln, hn))
                     return
                 v = self.value(s.value)
                 if v is None:
                     raise AnalysisError(f"value stored by `{src(s)[:80]}` is not understood")
+                if ln is not None or hn is not None:
+                    raise AnalysisError(f"vector stored through a `-e` slice bound in `{src(s)[:80]}` is not modelled")
                 self.obligations.append((s, src(s), hi - lo, v.length))
                 for e in v.events:
                     a.events.append(Event(e.lo + lo, e.hi + lo, e.kind, e.origin + lo, e.veclen, s))
